@@ -78,4 +78,61 @@ theorem foldAdd_append (racc : List TSRange) (a b : List (Length × Length)) :
     foldAdd (foldAdd racc a) b = foldAdd racc (a ++ b) := by
   simp [foldAdd, List.foldl_append]
 
+/-- A growing call keeps everything covered and covers its own span. -/
+theorem addRev_grow (racc : List TSRange) (s e : Length) (h : growOK racc s e = true) (x : Nat) :
+    (mem racc x → mem (addRev racc s e) x) ∧ (s.bytes ≤ x → x < e.bytes → mem (addRev racc s e) x) := by
+  cases racc with
+  | nil =>
+    simp only [addRev]
+    split
+    · simp [mkRange]; exact fun a b => ⟨a, b⟩
+    · simp; omega
+  | cons last rest =>
+    simp only [growOK, Bool.or_eq_true, Bool.and_eq_true, decide_eq_true_eq] at h
+    simp only [addRev]
+    split
+    · rename_i hle
+      have h' : last.start_byte ≤ s.bytes ∧ last.end_byte ≤ e.bytes := by
+        rcases h with h | h
+        · omega
+        · exact h
+      constructor
+      · intro hm
+        rcases (mem_cons _ _ _).1 hm with h1 | h1
+        · exact (mem_cons _ _ _).2 (Or.inl ⟨by simpa using h1.1, by simp; omega⟩)
+        · exact (mem_cons _ _ _).2 (Or.inr h1)
+      · intro h1 h2
+        exact (mem_cons _ _ _).2 (Or.inl ⟨by simp; omega, by simpa using h2⟩)
+    · split
+      · constructor
+        · intro hm; exact (mem_cons _ _ _).2 (Or.inr hm)
+        · intro h1 h2; exact (mem_cons _ _ _).2 (Or.inl ⟨by simpa [mkRange] using h1, by simpa [mkRange] using h2⟩)
+      · exact ⟨id, fun h1 h2 => by omega⟩
+
+theorem foldAdd_grow : ∀ (tr : List (Length × Length)) (racc : List TSRange), traceGrow racc tr = true →
+    ∀ x, (mem racc x → mem (foldAdd racc tr) x) ∧
+      (∀ c ∈ tr, c.1.bytes ≤ x → x < c.2.bytes → mem (foldAdd racc tr) x)
+  | [], racc, _, x => ⟨by simp [foldAdd], by intro c hc; cases hc⟩
+  | (s, e) :: rest, racc, h, x => by
+    simp only [traceGrow, Bool.and_eq_true] at h
+    have h1 := addRev_grow racc s e h.1 x
+    have ih := foldAdd_grow rest (addRev racc s e) h.2 x
+    simp only [foldAdd, List.foldl_cons]
+    refine ⟨fun hm => ih.1 (h1.1 hm), ?_⟩
+    intro c hc hx1 hx2
+    rcases List.mem_cons.1 hc with rfl | hc
+    · exact ih.1 (h1.2 hx1 hx2)
+    · exact ih.2 c hc hx1 hx2
+
+/-- A tiling covers every byte between its start and its end. -/
+theorem tile_find : ∀ (spans : List (Length × Length × Nat)) (lo p : Nat), spansTile lo spans = true →
+    lo ≤ p → p < spansEnd lo spans → ∃ sp ∈ spans, sp.1.bytes ≤ p ∧ p < sp.2.1.bytes
+  | [], lo, p, _, h1, h2 => by simp [spansEnd] at h2; omega
+  | (s, e, l) :: rest, lo, p, h, h1, h2 => by
+    simp only [spansTile, Bool.and_eq_true, decide_eq_true_eq] at h
+    by_cases hp : p < e.bytes
+    · exact ⟨(s, e, l), by simp, by simp; omega, by simpa using hp⟩
+    · obtain ⟨sp, hsp, h3⟩ := tile_find rest e.bytes p h.2 (by omega) (by simpa [spansEnd] using h2)
+      exact ⟨sp, List.mem_cons_of_mem _ hsp, h3⟩
+
 end TsVerif.C04
